@@ -215,13 +215,21 @@ def run_csr_case(c):
     laps = r.randint(2, 4) if c["loop"] else 1
     total = L * laps
     exp_addrs = [(B + (i % L)) % (1 << aw) for i in range(total)]
+    # non-looping runs are started a second time on the same instance (enable 0 -> new base / length -> enable 1)
+    second = None
+    if not c["loop"] and reader:       # (a disabled writer drains and drops its input by design: its producer cannot simply keep running)
+        second = (r.randrange(0, 1 << 13), r.choice([1, 3, 8, 20]))
+        exp_addrs += [(second[0] + i) % (1 << aw) for i in range(second[1])]
+        total2 = total + second[1]
+    else:
+        total2 = total
     state = dict(done=False, done_flag_at=None, done_early=False, offsets=set())
     v = []
     if reader:
         snk = StreamSink(dma.source, ["data", "last"], r, **sink_profile(c, r))
         procs = [stub.process(), snk.process()]
     else:
-        words = [r.getrandbits(dw) for _ in range(total + 8)]
+        words = [r.getrandbits(dw) for _ in range(total2 + 8)]
         src = StreamSource(dma.sink, [dict(data=w) for w in words], r, valid_prob=c["src_valid"])
         procs = [stub.process()]
 
@@ -239,7 +247,7 @@ def run_csr_case(c):
             n_cmd = len(stub.accepted[0])
             if done and state["done_flag_at"] is None:
                 state["done_flag_at"] = n_cmd
-                if n_cmd < L and not c["loop"]:
+                if not c["loop"] and n_cmd < (total2 if state.get("second_started") else L):
                     state["done_early"] = True
             moved = len(snk.got) if reader else stub.writes_done()
             if moved != state.get("moved"):
@@ -251,12 +259,25 @@ def run_csr_case(c):
                     for _ in range(80):
                         yield
                     break
-            elif done and moved >= total and stub.outstanding() == 0:
+            elif done and moved >= total and stub.outstanding() == 0 and second and not state.get("second_started"):
+                state["first_pass_commands"] = len(stub.accepted[0])
+                yield dma._enable.storage.eq(0)
+                for _ in range(r.randint(4, 40)):
+                    yield
+                yield [dma._base.storage.eq(second[0] * nb), dma._length.storage.eq(second[1] * nb)]
+                yield
+                yield dma._enable.storage.eq(1)
+                state["second_started"] = True
+                state["done_flag_at"] = None
+                for _ in range(3):
+                    yield
+                t = 0
+            elif done and moved >= total2 and stub.outstanding() == 0:
                 for _ in range(80):
                     yield
                 break
             if t > 6000:
-                v.append(dict(kind="no-progress", moved=moved, of=total, done_flag=bool(done)))
+                v.append(dict(kind="no-progress", moved=moved, of=total2, done_flag=bool(done), second_pass=bool(state.get("second_started"))))
                 break
             yield
         state["done"] = True
@@ -278,6 +299,8 @@ def run_csr_case(c):
     wes = set(we for (_, we, a) in stub.accepted[0])
     if wes - {0 if reader else 1}:
         v.append(dict(kind="wrong-command-direction", seen=sorted(wes)))
+    total = total2          # both passes are judged as one command / data stream
+    exp_last = [int((i % L) == L - 1) for i in range(L * laps)] + ([int(i == second[1] - 1) for i in range(second[1])] if second else [])
     if acc[:total] != exp_addrs[:len(acc[:total])] or len(acc) < total:
         k = next((i for i in range(min(len(acc), total)) if acc[i] != exp_addrs[i]), min(len(acc), total))
         v.append(dict(kind="csr-mode-address-sequence-differs", index=k, expected=exp_addrs[k:k + 3], got=acc[k:k + 3], base_word=B,
@@ -286,13 +309,14 @@ def run_csr_case(c):
         if len(acc) > total:
             v.append(dict(kind="csr-mode-more-commands-than-length", commands=len(acc), length_words=L))
         if state["done_flag_at"] is None:
-            v.append(dict(kind="csr-mode-done-never-set", commands=len(acc), length_words=L))
+            v.append(dict(kind="csr-mode-done-never-set", commands=len(acc), length_words=L, second_pass=bool(state.get("second_started"))))
         if state["done_early"]:
-            v.append(dict(kind="csr-mode-done-before-all-addresses-issued", commands_at_done=state["done_flag_at"], length_words=L))
+            v.append(dict(kind="csr-mode-done-before-all-addresses-issued", commands_at_done=state["done_flag_at"], length_words=L,
+                          second_pass_length=second[1] if second else None))
     elif state["done_flag_at"] is not None:
         v.append(dict(kind="csr-mode-done-set-in-loop-mode"))
     if reader:
-        exp = [(store.read(a), int((i % L) == L - 1)) for i, a in enumerate(exp_addrs)]
+        exp = [(store.read(a), exp_last[i]) for i, a in enumerate(exp_addrs)]
         got = [(g["data"], g["last"]) for (_, g) in snk.got]
         if got[:total] != exp[:len(got[:total])] or len(got) < total:
             k = next((i for i in range(min(len(got), total)) if got[i] != exp[i]), min(len(got), total))
@@ -310,9 +334,10 @@ def run_csr_case(c):
         if any(we != (1 << nb) - 1 for (a, d, we) in got):
             v.append(dict(kind="writer-partial-byte-enables"))
         moved = len(got2)
-    if max(state["offsets"] or [0]) > L:      # offset == length is the legitimate end state of a non-looping run
+    if max(state["offsets"] or [0]) > max(L, second[1] if second else 0):      # offset == length is the legitimate end state of a non-looping run
         v.append(dict(kind="csr-mode-offset-status-out-of-range", max_offset=max(state["offsets"]), length_words=L))
-    st = dict(words=moved, cycles=cycles, laps=laps, length_words=L, offsets_seen=len(state["offsets"]), max_outstanding=stub.max_out_seen)
+    st = dict(words=moved, cycles=cycles, laps=laps, length_words=L, offsets_seen=len(state["offsets"]), max_outstanding=stub.max_out_seen,
+              second_pass=bool(state.get("second_started")))
     sig = "|".join(str(x) for x in ("csr", c["engine"], c["fifo_depth"], c["buffered"], c["profile"], L, c["loop"]))
     return dict(verdict="violated" if v else "held", violations=v[:8], stats=st, nontrivial=(moved >= total) or bool(v), signature=sig)
 
